@@ -71,6 +71,16 @@ func (g *Gen) verifyContract(p *program, c *Contract) (obs []*Oblig, x *fx, err 
 			}
 		}
 	}
+	// an assertion whose call site (NAME#N) or return (N) no longer exists checks
+	// nothing: the contract does not bind
+	for k, cl := range c.Asserts {
+		if cl.E != nil && cl.E.Op == "id" && cl.E.Name == "false" {
+			continue // `assert call=NAME#N label: false` forbids the call: it need not exist
+		}
+		if !x2.assertSeen[k] {
+			return []*Oblig{mk("binds", fmt.Sprintf("contract does not bind: assert %q is attached to %s#%d, which the function does not have", clauseLabel(cl, k), strings.TrimPrefix(cl.Kind, "assert:"), cl.Loop))}, x2, nil
+		}
+	}
 	return x2.obs, x2, nil
 }
 
